@@ -348,6 +348,17 @@ func (fv *FuncVerifier) paramEnv(e *Enc) *Env {
 // idx of block b (resolved through DebugRefs / phi comments along the dominator chain).
 func (fv *FuncVerifier) siteEnv(e *Enc, b *ssa.BasicBlock, idx int) *Env {
 	env := fv.paramEnv(e)
+	env.idxOf = func(n int) (string, error) {
+		if n < 0 || n >= len(fv.headers) {
+			return "", fmt.Errorf("no loop %d", n)
+		}
+		for _, in := range fv.headers[n].Instrs {
+			if p, ok := in.(*ssa.Phi); ok && p.Comment == "rangeindex" {
+				return e.val(p), nil
+			}
+		}
+		return "", fmt.Errorf("loop %d has no range index", n)
+	}
 	env.oldVer = map[string]int{}
 	env.lookup = func(name string) (EV, bool) {
 		blk, i := b, idx
